@@ -34,6 +34,7 @@ type Conn struct {
 	closedCh chan struct{}
 	nOut     int
 	nIn      int
+	reader   uint64 // goroutine that read from this connection first
 
 	Local, Remote Addr
 	// Out is called in the writer's goroutine with a private copy of the bytes and the
@@ -99,7 +100,21 @@ func (timeoutErr) Is(t error) bool { return t == os.ErrDeadlineExceeded }
 
 var errTimeout net.Error = timeoutErr{}
 
+// ReaderGoid: the goroutine which called Read first (0: nobody yet).
+func (c *Conn) ReaderGoid() uint64 { c.mu.Lock(); defer c.mu.Unlock(); return c.reader }
+
 func (c *Conn) Read(p []byte) (int, error) {
+	c.mu.Lock()
+	first := c.reader == 0
+	c.mu.Unlock()
+	if first {
+		g := Goid()
+		c.mu.Lock()
+		if c.reader == 0 {
+			c.reader = g
+		}
+		c.mu.Unlock()
+	}
 	for {
 		c.mu.Lock()
 		if c.closed {
